@@ -39,34 +39,74 @@ structure Cfg where
   ignoreTimeMacros : Bool
 deriving Repr, DecidableEq
 
-/-! ### paths: Rust `Path::components`, `normalize_path`, `cwd.join` — canonical form = (absolute?, components) -/
+/-! ### paths: Rust `Path::components`, `normalize_path`, `cwd.join`, `PathBuf` equality (= equality of components) -/
 
 def splitSlash (s : Bytes) : List Bytes :=
   s.foldr (fun b acc => if b == bSlash then [] :: acc else match acc with | [] => [[b]] | x :: xs => (b :: x) :: xs) [[]]
 
-/-- `normalize_path`: drop `.`, resolve `..` lexically (never above the root / the start) -/
-def normComps (p : Bytes) : List Bytes :=
-  (splitSlash p).foldl (fun st c => if c.isEmpty || c == [bDot] then st else if c == [bDot, bDot] then st.dropLast else st ++ [c]) []
-
 def isAbs (p : Bytes) : Bool := p.head? == some bSlash
+def dotdot : Bytes := [bDot, bDot]
+
+/-- `Path::components` without the root: empty pieces and `.` are dropped, except a leading `.` of a relative path (`CurDir`) -/
+def rustComps (p : Bytes) : List Bytes :=
+  let cs := (splitSlash p).filter (fun c => !c.isEmpty)
+  match isAbs p, cs with
+  | false, c :: rest => if c == [bDot] then c :: rest.filter (· != [bDot]) else c :: rest.filter (· != [bDot])
+  | _, cs => cs.filter (· != [bDot])
+
+/-- one step of `normalize_path` **after the fix of F-C04-c**: a `..` with nothing to cancel is kept in a relative path -/
+def normStep (abs : Bool) (st : List Bytes) (c : Bytes) : List Bytes :=
+  if c == [bDot] then st
+  else if c == dotdot then
+    if st.getLast? == some dotdot then st ++ [c]
+    else if st.isEmpty then (if abs then st else st ++ [c])
+    else st.dropLast
+  else st ++ [c]
+
+/-- the pinned step: `ret.pop()` on an empty path is a no-op, so a leading `..` vanished (F-C04-c) -/
+def normStepPinned (_abs : Bool) (st : List Bytes) (c : Bytes) : List Bytes :=
+  if c == [bDot] then st else if c == dotdot then st.dropLast else st ++ [c]
+
+def normCompsWith (step : Bool → List Bytes → Bytes → List Bytes) (p : Bytes) : List Bytes :=
+  (rustComps p).foldl (step (isAbs p)) []
+def normComps (p : Bytes) : List Bytes := normCompsWith normStep p
 
 /-- canonical text of a path given as (absolute?, components) -/
 def render (abs : Bool) (cs : List Bytes) : Bytes :=
   (if abs then [bSlash] else []) ++ (match cs with | [] => [] | c :: rest => rest.foldl (fun acc x => acc ++ [bSlash] ++ x) c)
 
-/-- what `remember_include_file` keys on: the normalised include path, made absolute with `cwd` when relative.
-    (`cwd` and absolute include paths are compared by components, as `PathBuf` equality does.) -/
-def fullPath (cwd path : Bytes) : Bytes :=
-  if isAbs path then render true (normComps path) else render true (normComps cwd ++ normComps path)
-
-/-- the include path as it reaches `remember_include_file`: normalised text (or the raw text when normalisation is the identity) -/
-def normalizedText (raw : Bytes) : Bytes :=
-  let n := render (isAbs raw) (normComps raw)
-  -- `normalized == path_buf` compares components: equal components keep the raw spelling
-  if render (isAbs raw) ((splitSlash raw).filter (fun c => !c.isEmpty)) == n && !((splitSlash raw).any (· == [bDot])) then raw else n
+/-- the include path as it reaches `remember_include_file`: `normalized == path_buf` (components) keeps the raw spelling,
+    otherwise the normalised path is re-encoded -/
+def normalizedTextWith (step : Bool → List Bytes → Bytes → List Bytes) (raw : Bytes) : Bytes :=
+  let n := normCompsWith step raw
+  if rustComps raw == n then raw else render (isAbs raw) n
+def normalizedText (raw : Bytes) : Bytes := normalizedTextWith normStep raw
 
 /-- "Canonicalize path for comparison; Clang uses ./header.h" -/
 def stripDot (path : Bytes) : Bytes := if path.take 2 == [bDot, bSlash] then path.drop 2 else path
+
+/-- the `PathBuf` that `remember_include_file` keys on, as its list of components below the root: `cwd.join(path)` for a
+    relative path (a `.` is no longer leading there, so it is dropped); `..` components are *not* resolved here -/
+def keyComps (cwd path : Bytes) : List Bytes :=
+  if isAbs path then rustComps path else rustComps cwd ++ (rustComps path).filter (· != [bDot])
+
+def fullPath (cwd path : Bytes) : Bytes := render true (keyComps cwd path)
+
+/-! ### the file system: a finite world of directories and files without directory symlinks; `stat` resolves `..` physically -/
+
+def kindOf (world : List (List Bytes × FileKind)) (cs : List Bytes) : FileKind :=
+  match world.find? (fun e => e.1 == cs) with
+  | some e => e.2
+  | none => .missing
+
+/-- `cur`: an existing directory (components below `/`); remaining components to walk -/
+def resolve (world : List (List Bytes × FileKind)) : List Bytes → List Bytes → FileKind
+  | _, [] => .dir
+  | cur, c :: rest =>
+    if c == dotdot then resolve world cur.dropLast rest
+    else match kindOf world (cur ++ [c]) with
+      | .dir => resolve world (cur ++ [c]) rest
+      | k => if rest.isEmpty then k else .missing      -- ENOTDIR / ENOENT below something that is no directory
 
 inductive Remember where
   | ok (record : Option Bytes)   -- keep going; `some p`: p is recorded
@@ -86,7 +126,9 @@ def remember (cfg : Cfg) (fs : Bytes → FileKind) (cwd input : Bytes) (known : 
       | .dir => .ok none
       | .other => .disable
       | .file tooNew openFails hasTime =>
-        if tooNew then .disable
+        -- `<cwd>/a.h/`: the trailing slash survives `cwd.join`, and stat of a regular file through it fails (ENOTDIR)
+        if (stripDot path).getLast? == some bSlash then .disable
+        else if tooNew then .disable
         else if openFails then .disable
         else if hasTime && !cfg.ignoreTimeMacros then .disable
         else .ok (some full)
@@ -146,6 +188,7 @@ def processLine (cfg : Cfg) (fs : Bytes → FileKind) (cwd input : Bytes) (bytes
 
 inductive Res where
   | err
+  | panic      -- index out of bounds in the real code (the distcc-pump banner as unterminated last line)
   | ok (keep : Bool) (recorded : List Bytes)
 deriving Repr, DecidableEq
 
@@ -177,12 +220,22 @@ def scan (cfg : Cfg) (fs : Bytes → FileKind) (cwd input : Bytes) : Nat → Byt
     else if startsAt bytes start underscores && (start == 0 || at' bytes (start - 1) == bNl) then
       let s1 := skipUntil bytes [bNl] (total + 1) start
       -- `slice = &bytes[start..]; if slice[0] == b'\n'` panics when the banner is the unterminated last line
-      if s1 ≥ total then .err
+      if s1 ≥ total then .panic
       else scan cfg fs cwd input fuel bytes known (s1 + 1) (s1 + 1)
     else scan cfg fs cwd input fuel bytes known (start + 1) hashStart
 
 def processPreprocessedFile (cfg : Cfg) (fs : Bytes → FileKind) (cwd input bytes : Bytes) : Res :=
   scan cfg fs cwd input (2 * bytes.length + 2) bytes [] 0 0
+
+/-- the world-based instance used by the correspondence driver -/
+def fsOf (world : List (List Bytes × FileKind)) (full : Bytes) : FileKind := resolve world [] (rustComps full)
+
+/-- kernel-checked witness of F-C04-c (pinned code): `../inc/a.h` lost its leading `..` … -/
+theorem pinned_drops_leading_dotdot :
+    normalizedTextWith normStepPinned (sb [46, 46, 47, 105, 110, 99, 47, 97, 46, 104]) = sb [105, 110, 99, 47, 97, 46, 104] := by decide
+/-- … and the fixed code keeps the spelling -/
+theorem fixed_keeps_leading_dotdot :
+    normalizedText (sb [46, 46, 47, 105, 110, 99, 47, 97, 46, 104]) = sb [46, 46, 47, 105, 110, 99, 47, 97, 46, 104] := by decide
 
 /-! ### properties of the recording decision (`remember`) -/
 
@@ -193,6 +246,7 @@ theorem remember_records (cfg : Cfg) (fs : Bytes → FileKind) (cwd input : Byte
     (hsys : ¬ (system = true ∧ cfg.skipSystemHeaders = true))
     (hknown : known.contains (fullPath cwd (stripDot path)) = false)
     (hinput : fullPath cwd (stripDot path) ≠ fullPath cwd input)
+    (hslash : (stripDot path).getLast? ≠ some bSlash)
     (ht : Bool) (hfs : fs (fullPath cwd (stripDot path)) = .file false false ht)
     (htime : ht = false ∨ cfg.ignoreTimeMacros = true) :
     remember cfg fs cwd input known path system = .ok (some (fullPath cwd (stripDot path))) := by
@@ -209,7 +263,8 @@ theorem remember_records (cfg : Cfg) (fs : Bytes → FileKind) (cwd input : Byte
   simp only [h1, h2, Bool.false_eq_true, if_false, hknown, hfs]
   have h3 : (fullPath cwd (stripDot path) == fullPath cwd input) = false := by
     simpa using hinput
-  simp only [h3, Bool.false_eq_true, if_false]
+  have h4 : ((stripDot path).getLast? == some bSlash) = false := by simpa using hslash
+  simp only [h3, h4, Bool.false_eq_true, if_false]
   rcases htime with h | h <;> simp [h]
 
 /-- the system-header escape is the only way a readable, old, unknown user header goes unrecorded while direct mode
@@ -243,6 +298,8 @@ theorem remember_skip_reasons (cfg : Cfg) (fs : Bytes → FileKind) (cwd input :
             · cases h
             · split at h
               · cases h
-              · split at h <;> cases h
+              · split at h
+                · cases h
+                · split at h <;> cases h
 
 end RecM
